@@ -34,8 +34,7 @@ def wire(trace):
         for f in stp:
             toks.append(len(f))
             toks.extend(f)
-    if toks and max(toks) >= 64:
-        raise Shape("token out of range")
+    toks = [t if 0 <= t < 64 else 63 for t in toks]  # out of range: the model never produces 63
     return "".join(f"T{t} (" for t in toks) + "E" + ")" * len(toks)
 
 
@@ -145,28 +144,77 @@ class Shape(Exception):
 NMS = NK + NK + NC  # number of multiset fields of a snapshot
 
 
-def snapshot(st, ps, U, tail_from=0):
-    """Model_C17.snapshot: list of fields"""
-    sd, lm = ps.state.slot_dict, ps.state.limiters
-    for k, v in sd.items():
-        if not v or any(p.key != k for p in v) or k not in range(NK):
-            raise Shape(f"slot_dict[{k}] = {v}")
-    for k, v in lm.items():
-        if not v or k not in range(NK):
-            raise Shape(f"limiters[{k}] = {v}")
-    for c, v in ps.rev_blockers.items():
-        if not v:
+BAD = 62  # sentinel token: the implementation's answer could not be canonicalised
+
+
+def mult(container, key):
+    """multiplicity of key in a refcounting set / dict / set / list"""
+    if hasattr(container, "get") and hasattr(container, "items"):
+        v = container.get(key, 0)
+        if isinstance(v, bool) or not isinstance(v, int) or v < 0:
+            raise Shape(f"multiplicity {v!r}")
+        return v
+    if isinstance(container, (set, frozenset)):
+        return int(key in container)
+    if isinstance(container, (list, tuple)):
+        return sum(1 for x in container if x is key or x == key)
+    raise Shape(f"container {type(container).__name__}")
+
+
+def snapshot(st, ps, U, tail_from=0, problems=None):
+    """Model_C17.snapshot: list of fields.  Never raises: a component that no longer has the
+    shape the model's flat representation assumes is rendered as [BAD] and described in `problems`."""
+    problems = [] if problems is None else problems
+
+    def field(name, fn):
+        try:
+            f = fn()
+            if not all(isinstance(x, int) and not isinstance(x, bool) and 0 <= x for x in f):
+                raise Shape(f"non-numeric entry in {f!r}")
+            return list(f)
+        except Exception as e:  # noqa: BLE001 - every unexpected answer becomes a recorded mismatch
+            problems.append(f"{name}: {type(e).__name__}: {e}")
+            return [BAD]
+
+    def slot_list(k):
+        sd = ps.state.slot_dict
+        v = sd.get(k, ())
+        if k in sd and not v:
+            raise Shape(f"slot_dict[{k}] empty")
+        if any(p.key != k for p in v):
+            raise Shape(f"slot_dict[{k}] holds a foreign key")
+        return [p.i for p in v]
+
+    def lim_list(k):
+        lm = ps.state.limiters
+        v = lm.get(k, ())
+        if k in lm and not v:
+            raise Shape(f"limiters[{k}] empty")
+        return [b.i for b in v]
+
+    def rb_list(c):
+        v = ps.rev_blockers.get(c, ())
+        if c in ps.rev_blockers and not v:
             raise Shape(f"rev_blockers[{c}] empty")
+        return [b.i * 8 + k for b, k in v]
+
+    def extra_keys():
+        for nm, d in (("slot_dict", ps.state.slot_dict), ("limiters", ps.state.limiters)):
+            if any(k not in range(NK) for k in d):
+                raise Shape(f"{nm} has keys {list(d)}")
+        return []
+
+    field("keys", extra_keys)
     return (
-        [[p.i for p in sd.get(k, ())] for k in range(NK)]
-        + [[b.i for b in lm.get(k, ())] for k in range(NK)]
-        + [[b.i * 8 + k for b, k in ps.rev_blockers.get(c, ())] for c in U.C]
-        + [[(ps.pkg_choices[p].i + 1 if p in ps.pkg_choices else 0) for p in U.P],
-           [ps.blockers_refcnt.get(b, 0) for b in U.B],
-           [int(p in ps.vdb_filter) for p in U.P],
-           [ps.forced_restrictions.get(r, 0) for r in range(NR)],
-           [len(ps.plan)],
-           [x for o in ps.plan[tail_from:] for x in enc_plan_op(st, o)]])
+        [field(f"slot_dict[{k}]", lambda k=k: slot_list(k)) for k in range(NK)]
+        + [field(f"limiters[{k}]", lambda k=k: lim_list(k)) for k in range(NK)]
+        + [field(f"rev_blockers[{c}]", lambda c=c: rb_list(c)) for c in U.C]
+        + [field("pkg_choices", lambda: [(ps.pkg_choices[p].i + 1 if p in ps.pkg_choices else 0) for p in U.P]),
+           field("blockers_refcnt", lambda: [mult(ps.blockers_refcnt, b) for b in U.B]),
+           field("vdb_filter", lambda: [mult(ps.vdb_filter, p) for p in U.P]),
+           field("forced_restrictions", lambda: [mult(ps.forced_restrictions, r) for r in range(NR)]),
+           field("len(plan)", lambda: [len(ps.plan)]),
+           field("plan", lambda: [x for o in ps.plan[tail_from:] for x in enc_plan_op(st, o)])])
 
 
 def canon(snap):
@@ -175,16 +223,26 @@ def canon(snap):
 
 
 def enc_out(r):
-    if isinstance(r, Err):
-        return [2, int(r.kind)]
-    if r is None:
-        return [0]
-    return [1] + [(8 + x.i if hasattr(x, "m") else x.i) for x in r]
+    try:
+        if isinstance(r, Err):
+            return [2, int(r.kind)]
+        if r is None:
+            return [0]
+        return [1] + [(8 + x.i if hasattr(x, "m") else x.i) for x in r]
+    except Exception:  # noqa: BLE001 - an answer of an unexpected type
+        return [BAD]
 
 
 # ----------------------------------------------------------------------------- WF (mirror of Spec_C17.wf_api_b)
 def wf_reason(ps, U, a):
     """first conjunct of WF the call violates in the implementation's current state, or None"""
+    try:
+        return _wf_reason(ps, U, a)
+    except Exception:  # noqa: BLE001 - containers of an unexpected type: the snapshot reports it
+        return None
+
+
+def _wf_reason(ps, U, a):
     t = a[0]
     slotted = [p for v in ps.state.slot_dict.values() for p in v]
     if t == "add":
@@ -260,10 +318,14 @@ def run_history(st, cfg, h):
                 if failure is None:
                     fresh = st.plan_state()
                     U2 = Universe(cfg)
-                    for _, x in live:
-                        do_call(st, fresh, U2, x)
+                    try:
+                        for _, x in live:
+                            do_call(st, fresh, U2, x)
+                    except Exception as ex:  # noqa: BLE001
+                        failure = {"step": idx, "what": f"fresh replay of the surviving calls raised {type(ex).__name__}",
+                                   "surviving": [x for _, x in live]}
                     got, want = canon(snapshot(st, ps, U)), canon(snapshot(st, fresh, U2))
-                    if got != want:
+                    if failure is None and got != want:
                         failure = {"step": idx, "what": "state after rollback differs from replay of the surviving calls",
                                    "after_rollback": got, "replay": want, "surviving": [x for _, x in live]}
         else:
@@ -279,7 +341,16 @@ def run_history(st, cfg, h):
                 dead = True
             elif not dead:
                 live.append((len_before, e))
-        trace.append([enc_out(out)] + snapshot(st, ps, U, min(len_before, len(ps.plan))))
+        problems = []
+        try:
+            tail_from = min(len_before, len(ps.plan))
+        except Exception:  # noqa: BLE001
+            tail_from = 0
+        trace.append([enc_out(out)] + snapshot(st, ps, U, tail_from, problems))
+        if problems and failure is None:
+            failure = {"step": idx, "shape": True,
+                       "what": "the implementation's state no longer has the shape Model_C17 assumes: "
+                               + "; ".join(problems[:3])}
     if failure is not None:
         failure["first_nonwf"] = first_nonwf
     return trace, failure
@@ -408,12 +479,15 @@ def gen_wf(st, rng, cfg, n):
     ps = st.plan_state()
     live, h = [], []
     for _ in range(n):
-        cands = wf_candidates(st, ps, U, live)
+        try:
+            cands = wf_candidates(st, ps, U, live)
+        except Exception:  # noqa: BLE001 - state of an unexpected shape: run_history reports it
+            break
         byk = {}
         for e in cands:
             byk.setdefault(e[0], []).append(e)
         kinds = list(byk)
-        w = {"add": 4, "rep": 6, "rem": 5, "blk": 5, "dec": 1, "hard": 1, "back": 1, "rb": 4}
+        w = {"add": 4, "rep": 6, "rem": 5, "blk": 5, "dec": 1, "hard": 2, "back": 1, "rb": 4}
         kind = rng.choices(kinds, [w[k] for k in kinds])[0]
         e = rng.choice(byk[kind])
         h.append(e)
@@ -453,8 +527,14 @@ def gen_exh(st, cfg, depth, alphabet_filter):
         except Exception:  # noqa: BLE001 - a well-formed event raised: keep the history as a case
             res.append(list(h))
             return
-        for e in wf_candidates(st, ps, U, live):
-            if alphabet_filter(e, len(ps.plan)):
+        try:
+            cands = wf_candidates(st, ps, U, live)
+            planlen = len(ps.plan)
+        except Exception:  # noqa: BLE001
+            res.append(list(h))
+            return
+        for e in cands:
+            if alphabet_filter(e, planlen):
                 h.append(e)
                 rec(h)
                 h.pop()
@@ -529,6 +609,8 @@ def main(chk: Check):
             return e[1] in (0, 1) and e[2] == 0
         if t == "rb":
             return e[1] < planlen
+        if t == "hard":
+            return e[1] == 0
         return False
 
     depth = chk.n(4, 5)
@@ -554,8 +636,9 @@ def main(chk: Check):
         for cfg, h in cs:
             try:
                 trace, failure = run_history(st, cfg, h)
-            except Shape as e:
-                shape_bad.append({"stream": name, "cfg": cfg, "history": h, "what": str(e)})
+            except Exception as e:  # noqa: BLE001 - never a harness exception: report the history
+                shape_bad.append({"stream": name, "input": {"cfg": cfg, "history": h},
+                                  "what": f"driving the implementation failed outside an API call: {type(e).__name__}: {e}"})
                 continue
             cases.append((c_case(cfg, h), trace, cfg, h))
             if failure is not None:
@@ -567,8 +650,7 @@ def main(chk: Check):
             chk.sample({"stream": name, "cfg": cases[len(cases) // 2][2], "history": cases[len(cases) // 2][3]})
         all_cases.append((name, cases))
     for b in shape_bad[:3]:
-        chk.violation("correspondence", {"what": "container shape assumed by Model_C17 no longer holds", **b},
-                      no_input=True)
+        chk.violation("correspondence", b, no_input=False)
 
     # ---- (A) and (B) inside Coq: one evaluation over all streams (a coqc start costs seconds)
     a_bad, b_bad = [], []
@@ -594,11 +676,19 @@ def main(chk: Check):
         prop_fail = True
         if reported < 3:
             reported += 1
-            hs = shrink_list(h, lambda hh: _still_fails(st, cfg, hh, fn is None))
-            _, f2 = run_history(st, cfg, hs)
-            chk.violation("property", {"what": "rollback does not restore the state of the remaining operations: "
-                                               + failure["what"], "input": {"cfg": cfg, "history": hs},
-                                       "detail": f2, "stream": name})
+            hs, f2 = h, failure
+            try:
+                hs = shrink_list(h, lambda hh: _still_fails(st, cfg, hh, fn is None, bool(failure.get("shape"))))
+                _, f2 = run_history(st, cfg, hs)
+            except Exception:  # noqa: BLE001 - keep the unshrunk history
+                hs, f2 = h, failure
+            if failure.get("shape"):
+                chk.violation("correspondence", {"what": failure["what"], "input": {"cfg": cfg, "history": hs},
+                                                 "detail": f2, "stream": name}, no_input=False)
+            else:
+                chk.violation("property", {"what": "rollback does not restore the state of the remaining operations: "
+                                                   + failure["what"], "input": {"cfg": cfg, "history": hs},
+                                           "detail": f2, "stream": name})
     for name, c in b_bad[:3]:
         if not prop_fail:
             prop_fail = True
@@ -613,12 +703,13 @@ def main(chk: Check):
                       no_input=not prop_fail)
 
 
-def _still_fails(st, cfg, h, need_wf):
+def _still_fails(st, cfg, h, need_wf, shape=False):
     try:
         _, f = run_history(st, cfg, h)
     except Exception:  # noqa: BLE001
         return False
-    return f is not None and ((f.get("first_nonwf") is None) == need_wf)
+    return (f is not None and ((f.get("first_nonwf") is None) == need_wf)
+            and bool(f.get("shape")) == shape)
 
 
 def replay(chk, data):
